@@ -8,11 +8,17 @@ PAT = sys.argv[2] if len(sys.argv) > 2 else "*"
 PROPS = [json.loads(l)["id"] for l in open("/verif/properties.jsonl")]
 
 BASE = os.environ.get("MATRIX_BASE")  # a commit of /repo: run the seeds on the tree they were written against, and report only what that tree alone does not
+CONFIRM = json.load(open(os.environ["MATRIX_CONFIRM"])) if os.environ.get("MATRIX_CONFIRM") else {}  # per-seed base: results.json of tools/confirm_seeds.py (field `head`)
 
 
-def materialise(tmp):
-    if BASE:
-        subprocess.run(f"git -C /repo archive {BASE} compile.py dsl_compiler lib doc README.md LANGUAGE_SPEC.md | tar -x -C {tmp}", shell=True, check=True)
+def base_of(name):
+    return (CONFIRM.get(name) or {}).get("head") or BASE
+
+
+def materialise(tmp, base=None):
+    base = base or BASE
+    if base:
+        subprocess.run(f"git -C /repo archive {base} compile.py dsl_compiler lib doc README.md LANGUAGE_SPEC.md | tar -x -C {tmp}", shell=True, check=True)
         return
     for item in ("compile.py", "dsl_compiler", "lib", "doc", "example_programs", "README.md", "LANGUAGE_SPEC.md"):
         src = os.path.join("/repo", item)
@@ -30,31 +36,39 @@ def violations(tmp, p):
     return c.returncode, viol, [l for l in c.stdout.splitlines() if l.startswith("ANALYSIS-ERROR")][:1], known
 
 
-BASELINE = {}
-if BASE:
+BASELINE = {}  # base commit -> property -> set of violated constructs (incl. known findings) of the base tree alone
+
+
+def baseline_for(base):
+    if base in BASELINE:
+        return BASELINE[base]
     _t = tempfile.mkdtemp(prefix="fvmxb_")
+    out = {}
     try:
-        materialise(_t)
+        materialise(_t, base)
         with ThreadPoolExecutor(max_workers=8) as _ex:
             for p, r in zip(PROPS, _ex.map(lambda p: violations(_t, p), PROPS)):
-                BASELINE[p] = {v.split(" :: ")[0] for v in r[1]} | {k.split(" :: ")[0].split(" ", 2)[-1] for k in r[3]}
+                out[p] = {v.split(" :: ")[0] for v in r[1]} | {k.split(" :: ")[0].split(" ", 2)[-1] for k in r[3]}
     finally:
         shutil.rmtree(_t, ignore_errors=True)
+    BASELINE[base] = out
+    return out
 
 
 def run_seed(patch):
     name = "/".join(patch.split("/")[-3:-1])
     tmp = tempfile.mkdtemp(prefix="fvmx_")
+    base = base_of(name)
     try:
-        materialise(tmp)
+        materialise(tmp, base)
         r = subprocess.run(["patch", "-p1", "-s", "-f", "-i", patch], cwd=tmp, capture_output=True, text=True)
         if r.returncode != 0:
             return name, {"_apply": "FAILED " + (r.stdout + r.stderr)[:200]}
         res = {}
         for p in PROPS:
             rc, viol, err, _known = violations(tmp, p)
-            if BASE:
-                viol = [v for v in viol if v.split(" :: ")[0] not in BASELINE.get(p, set())]
+            if base:
+                viol = [v for v in viol if v.split(" :: ")[0] not in BASELINE.get(base, {}).get(p, set())]
                 rc = 1 if viol else (2 if rc == 2 else 0)
             res[p] = (rc, [v[:140] for v in viol], err)
         return name, res
@@ -62,6 +76,8 @@ def run_seed(patch):
         shutil.rmtree(tmp, ignore_errors=True)
 
 patches = sorted(glob.glob(os.path.join(ROOT, PAT, "*", "patch.diff")))
+for _b in sorted({base_of("/".join(p.split("/")[-3:-1])) for p in patches} - {None}):
+    baseline_for(_b)  # computed before the worker threads start
 with ThreadPoolExecutor(max_workers=8) as ex:
     results = list(ex.map(run_seed, patches))
 out = {}
